@@ -23,6 +23,55 @@ type c13Case struct {
 	Others  []c13Other  `json:"others,omitempty"` // further test files in the same tree (state must not carry over between files)
 	IO      *ioScenario `json:"io,omitempty"`     // an I/O-fault scenario (the other fields are unused then)
 	Link    bool        `json:"link,omitempty"`   // the test file is a symbolic link to a file elsewhere below the root
+	// Twin: the rule has a second test file with the other legal extension ("same-dir" | "other-dir"): addressing the
+	// rule by its id is ambiguous and must be refused, --all renumbers both
+	Twin string `json:"twin,omitempty"`
+}
+
+// c13Twin: one id, two test files with the two legal extensions.
+func c13Twin(env *core.Env, c *c13Case) core.Verdict {
+	root := emptyRoot(env)
+	defer rmCase(root)
+	dir := filepath.Join("tests", "regression", "tests", "REQUEST-"+c.Rule[:3]+"-TESTS")
+	otherExt := map[string]string{".yaml": ".yml", ".yml": ".yaml"}[c.Ext]
+	a, b := filepath.Join(dir, c.Rule+c.Ext), filepath.Join(dir, c.Rule+otherExt)
+	if c.Twin == "other-dir" {
+		b = filepath.Join("tests", "regression", "tests", "REQUEST-"+c.Rule[:3]+"-MOVED", c.Rule+otherExt)
+	}
+	second := "---\ntests:\n  - test_id: 4\n    desc: second file of the same rule\n  - test_id: 4\n"
+	tree := sut.Tree{a: c.Content, b: second}
+	if err := tree.Write(root); err != nil {
+		return core.Incon("cannot write tree: %v", err)
+	}
+	v := core.Verdict{Status: core.Held, Nontrivial: true, Features: []string{"lane:two-extensions:" + c.Twin}, Counts: map[string]int{}}
+	before := sut.Snap(root)
+	for _, args := range [][]string{{"util", "renumber-tests", c.Rule}, {"util", "renumber-tests", "--check", c.Rule}, {"-o", "github", "util", "renumber-tests", c.Rule + c.Ext}} {
+		r := cli(env, root, nil, args...)
+		if r.Class() == sut.ClassTimeout {
+			return core.Incon("watchdog hit, not judged: %s", describe(r))
+		}
+		if r.Class() == sut.ClassFault {
+			return core.Viol("crash", "%v crashed: %s", args, describe(r))
+		}
+		if d := sut.Diff(before, sut.Snap(root)); len(d) > 0 {
+			return core.Viol("ambiguous-id-rewrites", "%v: rule %s has the test files %s and %s, yet the command changed %v (exit %d)", args, c.Rule, a, b, d, r.Exit)
+		}
+		if r.Exit == 0 {
+			return core.Viol("ambiguous-id-accepted", "%v: rule %s has the test files %s and %s, yet the command exits 0", args, c.Rule, a, b)
+		}
+	}
+	// --all is not ambiguous: both files are renumbered
+	r := cli(env, root, nil, "util", "renumber-tests", "--all")
+	if r.Exit != 0 {
+		return core.Viol("renumber-fails", "renumber-tests --all failed: %s", describe(r))
+	}
+	for f, content := range map[string]string{a: c.Content, b: second} {
+		got, _ := sut.Read(root, f)
+		if want := c13Model(c.Rule, content); !sameLines(got, want) {
+			return core.Viol("wrong-content:two-extensions", "after --all %s is not the renumbered form of what was there\n%s", f, firstDiff(got, want))
+		}
+	}
+	return v
 }
 
 type c13Other struct {
@@ -216,6 +265,11 @@ func c13Check(env *core.Env, cc core.Case) core.Verdict {
 	if c0.IO != nil {
 		return ioScenarioCheck(env, "C13", c0.IO)
 	}
+	if c0.Twin != "" {
+		t := *c0
+		t.Content = c13Bytes(c0.Content)
+		return c13Twin(env, &t)
+	}
 	cp := *c0
 	cp.Content = c13Bytes(c0.Content)
 	cp.Others = nil
@@ -272,11 +326,17 @@ func c13Check(env *core.Env, cc core.Case) core.Verdict {
 			a = append(a, "-o", "github")
 		}
 		a = append(a, "util", "renumber-tests")
+		// the switches may be spelt with their value: --check=false is a rewriting run, -c=true a checking one
+		sp := (len(c.Content) + len(c.Rule)) % 5
 		if check {
-			a = append(a, "--check")
+			a = append(a, []string{"--check", "-c", "--check=true", "-c=true", "--check"}[sp])
+		} else if sp == 2 {
+			a = append(a, "--check=false")
+		} else if sp == 3 {
+			a = append(a, "-c=false")
 		}
 		if c.All {
-			a = append(a, "--all")
+			a = append(a, []string{"--all", "-a", "--all=true", "--all", "-a=true"}[sp])
 		} else {
 			a = append(a, c.Rule)
 		}
@@ -367,7 +427,7 @@ func init() {
 		ID:    "C13",
 		Level: "exploration",
 		Rule: "generated ftw-style YAML test files (0..12 tests, one in forty with 9..1001 so that counters gain digits; lanes id-only, title-only, both, both reversed, mixed; odd id values; payload lines with bytes that are not valid UTF-8; CRLF; missing/extra final newlines, trailing white-space lines; .yaml/.yml; single rule argument or --all; text or github output; one file in ten reached through a symbolic link; files named like the argument in the working directory) are run through the built CLI: --check, renumber, renumber again, --check. " +
-			"Oracle: independent line model (n-th test_id -> n, n-th test_title -> <rule>-n, other line content equal, trailing blank lines removed, one final newline), byte comparison, snapshot of the whole tree. Non-trivial = file with >= 2 numbered fields; distinct by case hash. Domain: every file has at least one non-blank line; each line carries at most one of the two keys, written 'key:<space|tab>value'.",
+			"Oracle: independent line model (n-th test_id -> n, n-th test_title -> <rule>-n, other line content equal, trailing blank lines removed, one final newline), byte comparison, snapshot of the whole tree. Non-trivial = file with >= 2 numbered fields; distinct by case hash. Plus trees in which one rule has two test files with the two legal extensions (same or different directory): the single-id forms must refuse and change nothing, --all renumbers both. Domain: every file has at least one non-blank line; each line carries at most one of the two keys, written 'key:<space|tab>value'.",
 		Cases: func(env *core.Env, rng *rand.Rand) []core.Case {
 			n := env.N(1500, 15000)
 			var cs []core.Case
@@ -384,6 +444,11 @@ func init() {
 			}
 			for _, sc := range ioCases("C13") {
 				cs = append(cs, &c13Case{Lane: "io", IO: sc})
+			}
+			for i, k := 0, env.N(40, 400); i < k; i++ {
+				c := c13Gen(rng, "")
+				c.Link, c.Twin = false, []string{"same-dir", "other-dir"}[i%2]
+				cs = append(cs, c)
 			}
 			return cs
 		},
